@@ -508,6 +508,89 @@ def one_case(run, scenario, pv, default_pv, k, abrupt, rng_bytes, hook_log):
             pc.safe_disconnect(conn)
 
 
+def high_descriptor_case(run, pv, hook_log, idx):
+    """The process has many files open: the connection's descriptor number is
+    above select()'s FD_SETSIZE.  Whatever the platform call makes of that, the
+    outcome is one of the two the property allows - the session works, or an
+    error is reported and the thread ends; a thread that stays, using CPU,
+    without reporting anything is the spin verdict."""
+    codec = codec_for(pv)
+    state = {}
+
+    def handler(io):
+        hs = scripts.read_handshake(io)
+        if hs is None:
+            return
+        try:
+            scripts.login_offline(io, pv, None, codec)
+            kid, kp = codec.encode('cb_keep_alive', {'id': 31})
+            io.send_frame(kid, kp)
+            fr = io.recv_frame(3.0)
+            state['echo'] = fr is not None
+        except Exception:
+            pass
+        if idx % 2:
+            io.close(abrupt=False)
+        else:
+            # the server goes away inside a frame
+            io.send_raw(b'\x20\x00\x01')
+            io.half_close()
+        try:
+            io.wait_eof(6.0)
+        except mcserver.ScriptTimeout:
+            pass
+    server = mcserver.Server(handler)
+    rec = pc.Recorder()
+    conn = None
+    w = {'pv': pv, 'descriptor_at_least': 1100 + idx}
+    try:
+        conn = pc.make_connection(server.port, rec, allowed_versions={pv})
+        conn.vf_min_fd = 1100 + idx
+        try:
+            conn.connect()
+        except Exception as e:
+            run.count('high_descriptor.connect_refused_by_platform')
+            w['connect_raised'] = repr(e)
+            return None
+        done = False
+        busy, cpu0 = 0, {}
+        for _ in range(12):
+            done = pc.wait_idle(conn, 1.0)
+            if done:
+                break
+            hot = False
+            for t in pc.threads_of(conn):
+                c = pc.thread_cpu_seconds(t)
+                if c is not None:
+                    if c - cpu0.get(t, c) > 0.6:
+                        hot = True
+                    cpu0[t] = c
+            busy = busy + 1 if hot else 0
+            if busy >= 3:
+                break
+        run.count('high_descriptor_cases')
+        if not done and busy >= 3:
+            run.violation('eof/spin/high-descriptor', 'with a descriptor '
+                          'number above FD_SETSIZE the networking thread kept '
+                          'running at full speed, neither working nor '
+                          'reporting anything',
+                          dict(w, errors=repr(rec.exceptions[:1]),
+                               fd=getattr(conn.socket, 'fileno', lambda: -1)()
+                               if conn.socket is not None else None))
+            return None
+        if not done:
+            return 'threads alive after watchdog (not spinning)'
+        if not rec.exceptions and rec.exits < 1:
+            run.violation('eof/silent/high-descriptor', 'the networking '
+                          'thread ended without reporting an error and '
+                          'without the exit callback', w)
+        return None
+    finally:
+        server.stop()
+        if conn is not None:
+            pc.safe_disconnect(conn)
+
+
 def refused_after_status_case(run, pv, default_pv, hook_log):
     """The server answers the negotiation's status query completely and is
     then gone: the login connection the client opens next is *refused*.  The
@@ -833,6 +916,14 @@ def run(run):
                 if res is None:
                     run.inconclusive_because('%s@%d: %s' % (fn.__name__, pv,
                                                             info))
+        for k in range(8 if thorough else 2):
+            if not run.mine(920000 + k):
+                continue
+            err = high_descriptor_case(run, versions[k % len(versions)][0],
+                                       hook_log, k)
+            run.case(('high-descriptor', k))
+            if err:
+                run.inconclusive_because('high descriptor %d: %s' % (k, err))
         for pv, default_pv in versions:
             for scenario in SCENARIOS:
                 # dry run: total length and frame boundaries
